@@ -189,8 +189,8 @@ PROPS["C12"] = dict(
 )
 
 PROPS["C16"] = dict(
-    n_quick=480, n_thorough=20000, shards=16, coq_dirs=["C16"], no_shrink=True, confirm_runs=4, go_build_flags=["-race"],
-    rule="cases: (11/12) real-time histories on a limiter tree (period 40 ms): 3-28 operations among Use (amounts -3..cap+4, incl. 0, cap, "
+    n_quick=480, n_thorough=20000, shards=8, coq_dirs=["C16"], no_shrink=True, confirm_runs=4, go_build_flags=["-race"],
+    rule="cases: (11/12) real-time histories on a limiter tree (period 80 ms): 3-28 operations among Use (amounts -3..cap+4, incl. 0, cap, "
          "cap+1), New (child caps 1..30, also above the parent's), SetCap, Close (children, sometimes the root), tick (wait for the next "
          "period), always ending with a tick and the root's Close; operations are issued 10 ms after a tick and the answers of a tick are "
          "collected 5 ms after it; after every operation the answers that arrived and LastUsed/Closed/Cap(true) of every limiter are "
